@@ -125,6 +125,16 @@ func (c *Ctx) siblings() {
 	}
 }
 
+// poolRule: tokens and positions handed out by the pools are pairwise distinct (C18's rule, a necessary condition here).
+func (c *Ctx) poolRule() {
+	c.Fixture("mini", "pool-typestate", false, func(p *load.Program, tb *kinds.Table) *report.RuleResult {
+		return small.PoolRule(p, "pkg/token", "pkg/badpool1", "pkg/badpool2", "pkg/badpool3", "pkg/badpool4")
+	})
+	if p, _, ok := c.RepoProgram(false); ok {
+		c.Add(small.PoolRule(p, "pkg/token", "pkg/position"))
+	}
+}
+
 func (c *Ctx) builderEnds() {
 	c.Fixture("mini", "builder-ends", false, func(p *load.Program, tb *kinds.Table) *report.RuleResult {
 		r := small.BuilderEnds(p, "internal/position")
@@ -139,6 +149,15 @@ func (c *Ctx) builderEnds() {
 var yyTrusted = append([]string{"goyacc (golang.org/x/tools v0.29.0/cmd/goyacc) as reference generator", "the abstract interpreter for grammar actions in internal/yyflow (anything outside its Go fragment is undecided and fails)"}, baseTrusted...)
 
 func init() {
+	properties["YY"] = &Property{ // development aid: every grammar-action rule at once (not registered in the manifest)
+		Level: "other", Engine: "yyflow",
+		Run: func(c *Ctx) {
+			defer c.cleanup()
+			c.flows_("linear", "order", "pos-span", "leaf-value", "nil-in-list", "error-yields-nil", "no-carrier-escape")
+			c.flowRule("kind-of-operator", flowRules["kind-of-operator"])
+			c.siblings()
+		},
+	}
 	delete(notApplicable, "C02")
 	properties["C02"] = &Property{
 		Level:     "other",
@@ -146,7 +165,7 @@ func init() {
 		LevelNote: "Three insertion sites of the printer are genuinely reachable from parsed trees and are listed as known findings.",
 		Technique: "static analysis: abstract interpretation of grammar actions (linearity / ordering of token placement), table equivalence with the regenerated grammar, typed-AST slot analysis of the printer, enumeration of byte-insertion sites",
 		Engine:    "yyflow",
-		Explanation: "tables-sync, linear, order, no-carrier-escape on both grammars; print-slots, print-helpers, print-inserts on pkg/visitor/printer.",
+		Explanation: "tables-sync, linear, order, no-carrier-escape on both grammars; pool-typestate (tokens are distinct objects); print-slots, print-helpers, print-inserts on pkg/visitor/printer.",
 		Assumptions: []string{"the scanner hands every source byte to exactly one token or free-floating token (C04)"},
 		TrustedBase: yyTrusted,
 		Floors: []report.Floor{
@@ -161,6 +180,7 @@ func init() {
 			defer c.cleanup()
 			c.grammarRule("tables-sync", syncRule)
 			c.flows_("linear", "order", "no-carrier-escape")
+			c.poolRule()
 			c.visitorRule("print-slots", visitors.PrintSlots)
 			if p, tb, ok := c.RepoProgram(false); ok {
 				c.Add(visitors.PrintHelpers(p, tb))
@@ -175,7 +195,7 @@ func init() {
 		LevelNote: "Three wrong spans pinned by the repository's own tests are listed as known findings (goto label, \"${a[0]}\" in both grammars).",
 		Technique: "static analysis: abstract interpretation of grammar actions (boundary arguments vs. placed content), shape/nullability fixpoint over nonterminals, typed-AST check of the position combinators",
 		Engine:    "yyflow",
-		Explanation: "pos-span, linear, order on both grammars; builder-ends on internal/position; tables-sync.",
+		Explanation: "pos-span, linear, order on both grammars; builder-ends on internal/position; pool-typestate (positions are distinct objects); tables-sync.",
 		TrustedBase: yyTrusted,
 		Floors: []report.Floor{
 			{Rule: "pos-span", What: "nodes", Min: 900},
@@ -188,6 +208,7 @@ func init() {
 			c.grammarRule("tables-sync", syncRule)
 			c.flows_("pos-span", "linear", "order")
 			c.builderEnds()
+			c.poolRule()
 		},
 	}
 	delete(notApplicable, "C10")
@@ -225,6 +246,10 @@ func init() {
 			defer c.cleanup()
 			c.flowRule("kind-of-operator", flowRules["kind-of-operator"])
 			c.flows_("leaf-value", "order")
+			c.Fixture("mini", "version-flow", false, func(p *load.Program, tb *kinds.Table) *report.RuleResult { return small.VersionFlow(p) })
+			if p, _, ok := c.RepoProgram(false); ok {
+				c.Add(small.VersionFlow(p))
+			}
 		}
 	}
 	// C07: add the action-level clauses
